@@ -8,14 +8,14 @@ theorem runC_st {pc : PC} {st : Nat} (hr : runC pc = true) (h : StOk pc st) : st
 /-- the owner recorded for the barrier mutex is a thread slot -/
 theorem Reach.lockB_valid {N : Nat} {s : State} (hr : Reach N s) : ∀ b, s.lockB = some b → s.thr[b]? ≠ none := by
   induction hr with
-  | init => intro b hb; simp [init] at hb
+  | init => intro b hb; simp [Dora.Stw.init] at hb
   | step hr' ha ih =>
     rename_i s0 s1 e
     intro b hb1
     obtain ⟨pc, st, idx, ht, hs⟩ := accept_step ha
     have hlen : s1.thr.length = s0.thr.length := by
       cases hs <;> simp [State.setPc, State.setSt, State.setIdx]
-    have hval : ∀ u, s0.thr[u]? ≠ none → s1.thr[u]? ≠ none := by
+    have hval : ∀ u : Nat, s0.thr[u]? ≠ none → s1.thr[u]? ≠ none := by
       intro u hu
       have : u < s0.thr.length := by
         rcases Nat.lt_or_ge u s0.thr.length with h1 | h1
